@@ -82,6 +82,15 @@ CHECKS = {
          'occurs_check=true/error are compared with "a finite unifier exists".',
     note='Trusted: the Python unifier. Attributed variables excluded (C26). With occurs_check=error a non-unifiable pair may fail '
          'or raise (a cyclic binding can be met before the mismatch).'),
+ 'C14': dict(
+    level='exploration',
+    technique='runtime monitoring: reference list/set/map models (Python, ordered by the reference standard order) next to the engine; assoc operation histories against a dict',
+    text='Generated lists of mixed variable-free terms (duplicates, equal numbers in different representations, strings, char '
+         'prefixes stored as partial strings, boxed integers) are given to sort/2, keysort/2, the exported library(lists) '
+         'predicates (all modes of append/3, nth0/nth1, select/3, ...), ordsets, pairs, and random put/get/del/min/max histories of '
+         'library(assoc); every result (or solution list) must equal the model\'s.',
+    note='Trusted: the Python models and the C13 reference order. Only exported predicates; K4 (sort/2 rejecting lists with a '
+         'one-char-atom prefix) is a KNOWN-FINDING.'),
 }
 
 NOT_APPLICABLE_REASON_UNBUILT = ('check designed in DESIGN.md but not built/validated yet in this session; '
